@@ -10,7 +10,7 @@ import (
 )
 
 func (g *Gen) safety(kind, text string, pos token.Pos, reach, cond string) {
-	if g.ct != nil && g.ct.NoSafety {
+	if g.ct != nil && g.ct.NoSafety && g.noSafetyHere() {
 		// thin contract: the panic-freedom obligations of this function are not generated here
 		// (they belong to the C20 sweep); the execution is assumed not to panic at this point
 		g.assume(app("=>", reach, cond))
@@ -802,6 +802,18 @@ func (g *Gen) writtenByUs(n string) bool {
 			if (w.heap == n || w.heap == "*") && !(w.base == nil && g.interfered[n]) {
 				return true
 			}
+		}
+	}
+	return false
+}
+
+func (g *Gen) noSafetyHere() bool {
+	if len(g.ct.NoSafetyProps) == 0 {
+		return true
+	}
+	for _, p := range g.ct.NoSafetyProps {
+		if p == g.prog.curProp {
+			return true
 		}
 	}
 	return false
